@@ -427,7 +427,7 @@ def main():
         }
         if hasattr(b, 'coqchk'):
             ev['coverage']['coqchk_tail'] = b.coqchk
-        if not a.replay:
+        if not a.replay and os.path.realpath(REPO) == '/repo':     # private VERIF_REPO runs (seed vetting) leave the evidence alone
             os.makedirs(os.path.join(VERIF, 'evidence'), exist_ok=True)
             with open(os.path.join(VERIF, 'evidence', pid + '.json'), 'w') as f:
                 json.dump(ev, f, indent=1, default=str)
